@@ -649,6 +649,53 @@ def serialise_ir():
     return {'stores': sorted(stores), 'attributes': 'all of self.attributes, str(v)', 'text': 'str(self.value_) unless None', 'children': 'get_children() order'}
 
 
+# ---- (j) decision table of the child shortcut  e.xml_x = value  (XMLElement._convert_attribute_to_child)
+def shortcut_ir():
+    t = parse('musicxml/xmlelement/xmlelement.py')
+    f = find_func(t, 'XMLElement', '_convert_attribute_to_child')
+    if f is None:
+        raise Fail('_convert_attribute_to_child not found')
+    body = [st for st in f.body if not (isinstance(st, ast.Expr) and isinstance(st.value, ast.Constant))]
+    src = [ast.unparse(st) for st in body]
+    head = ["if not name.startswith('xml_'):\n    raise NameError", "child_name = name.replace('xml_', '')",
+            "if '-'.join(child_name.split('_')) not in self.possible_children_names:\n    raise NameError",
+            "child_class_name = 'XML' + ''.join([cap_first(partial) for partial in child_name.split('_')])",
+            'child_class = eval(child_class_name)', 'found_child = self.find_child(child_class_name)']
+    if src[:6] != head or len(body) != 7 or not isinstance(body[6], ast.If):
+        raise Fail('_convert_attribute_to_child: preamble changed')
+    acts = {'self.replace_child(found_child, value)': 'Replace', 'self.add_child(value)': 'AddGiven', 'self.remove(found_child)': 'Remove',
+            'found_child.value_ = value': 'SetValue', 'self.add_child(child_class(value))': 'AddNew'}
+
+    def branch(stmts):
+        """stmts: [if found_child: A else: B]  or  [if found_child: A]"""
+        if len(stmts) != 1 or not isinstance(stmts[0], ast.If) or ast.unparse(stmts[0].test) != 'found_child':
+            raise Fail('_convert_attribute_to_child: branch is not `if found_child`')
+
+        def one(ss):
+            if not ss:
+                return 'Nothing'
+            if len(ss) != 1 or ast.unparse(ss[0]) not in acts:
+                raise Fail('_convert_attribute_to_child: unknown action ' + ' ; '.join(ast.unparse(x) for x in ss)[:80])
+            return acts[ast.unparse(ss[0])]
+        return one(stmts[0].body), one(stmts[0].orelse)
+    table = {}
+    node = body[6]
+    kinds = {'isinstance(value, child_class)': 'Instance', 'value is None': 'IsNone'}
+    while True:
+        k = kinds.get(ast.unparse(node.test))
+        if k is None or k in table:
+            raise Fail('_convert_attribute_to_child: unknown test ' + ast.unparse(node.test))
+        table[k] = branch(node.body)
+        if len(node.orelse) == 1 and isinstance(node.orelse[0], ast.If) and ast.unparse(node.orelse[0].test) != 'found_child':
+            node = node.orelse[0]
+            continue
+        table['Other'] = branch(node.orelse)
+        break
+    if set(table) != {'Instance', 'IsNone', 'Other'}:
+        raise Fail('_convert_attribute_to_child: cases ' + str(sorted(table)))
+    return table
+
+
 def cq(s):
     return q(str(s))
 
@@ -783,6 +830,19 @@ def main():
         side['serialise'] = 'FAILED: ' + str(ex)
         o.append('Definition tr_serialise_ok := false. (* %s *)' % str(ex).replace('*', ' ').replace('\n', ' '))
         o.append('Definition serialise_stores : list string := [].')
+    o.append('Inductive sc_action := ScReplace | ScAddGiven | ScRemove | ScSetValue | ScAddNew | ScNothing.')
+    o.append('Inductive sc_kind := ScInstance | ScIsNone | ScOther.')
+    try:
+        sc = shortcut_ir()
+        side['shortcut'] = sc
+        o.append('Definition tr_shortcut_ok := true.')
+        o.append('(* value kind -> (action when a child of that class is present, action when not) *)')
+        o.append('Definition shortcut_table : list (sc_kind * (sc_action * sc_action)) := [' + '; '.join(
+            '(Sc%s, (Sc%s, Sc%s))' % (k, sc[k][0], sc[k][1]) for k in ('Instance', 'IsNone', 'Other')) + '].')
+    except Fail as ex:
+        side['shortcut'] = 'FAILED: ' + str(ex)
+        o.append('Definition tr_shortcut_ok := false. (* %s *)' % str(ex).replace('*', ' ').replace('\n', ' '))
+        o.append('Definition shortcut_table : list (sc_kind * (sc_action * sc_action)) := [].')
     ch = write_if_changed(os.path.join(VERIF, 'coq', 'Gen', 'Code.v'), '\n'.join(o) + '\n')
     write_if_changed(os.path.join(VERIF, 'build', 'code.json'), json.dumps(side, sort_keys=True, indent=1))
     print('code: write=%s opens=%s prints=%s caches=%s changed=%s' % (
